@@ -111,6 +111,9 @@ func (m *MemoryInstance) Definition() api.MemoryDefinition {
 
 // Size implements the same method as documented on api.Memory.
 func (m *MemoryInstance) Size() uint32 {
+	if m == nil {
+		return 0
+	}
 	return uint32(len(m.Buffer))
 }
 
@@ -335,6 +338,9 @@ func memoryBytesNumToPages(bytesNum uint64) (pages uint32) {
 //
 // Note: This is always fine, because memory can grow, but never shrink.
 func (m *MemoryInstance) hasSize(offset uint32, byteCount uint64) bool {
+	if m == nil { // api.Module.Memory of a module without memory: every access is out of range.
+		return false
+	}
 	return uint64(offset)+byteCount <= uint64(len(m.Buffer)) // uint64 prevents overflow on add
 }
 
